@@ -144,6 +144,20 @@ func (C05) Gen(r *core.Rng, tier string, emit func(string)) {
 		}
 		emit(fmt.Sprintf("build %d %s", ls, fmtEntries(es)))
 	}
+	// deduplicated contents: a reference back to an earlier content, then a fresh content that starts where the
+	// data written so far ends (A B A C, A B C A D, …) — "contiguous with the previous entry" and "contiguous with
+	// the end of the data" are different things
+	for _, shape := range [][]int{{0, 1, 0, 2}, {0, 1, 2, 0, 3}, {0, 1, 0, 1, 2}, {0, 0, 1, 0, 2, 1, 3}} {
+		var es []pmtiles.EntryV3
+		id := uint64(r.Intn(50))
+		for _, c := range shape {
+			es = append(es, pmtiles.EntryV3{TileID: id, Offset: uint64(c) * 10, Length: 10, RunLength: 1})
+			id += 1 + uint64(r.Intn(3))
+		}
+		for _, ls := range []int{1, 2, len(es), len(es) + 1} {
+			emit(fmt.Sprintf("build %d %s", ls, fmtEntries(es)))
+		}
+	}
 	budget := 16384 - 127
 	sizes := []int{0, 1, 16383, 16384, 16385, 4095, 4096, 4097, 8191, 8193, 40000}
 	for i := 0; i < nOpt; i++ {
@@ -220,6 +234,9 @@ func (C05) Gen(r *core.Rng, tier string, emit func(string)) {
 		for n := lo - 4; n < lo+70; n++ {
 			if n > 0 && n <= 9000 {
 				emit(fmt.Sprintf("finroot %d %d", seed, n))
+				if s == 0 {
+					emit(fmt.Sprintf("finrootx %d %d", seed, n)) // the other writer of a root directory: a whole-archive Extract
+				}
 			}
 		}
 	}
@@ -255,8 +272,64 @@ func (C05) RunGo(line string) string {
 		seed, _ := strconv.ParseUint(t[1], 10, 64)
 		n, _ := strconv.Atoi(t[2])
 		return runFinroot(seed, n)
+	case "finrootx":
+		seed, _ := strconv.ParseUint(t[1], 10, 64)
+		n, _ := strconv.Atoi(t[2])
+		return runFinrootExtract(seed, n)
 	}
 	return "bad-case"
+}
+
+// runFinrootExtract: the same entry list as a clustered source archive (its own directories in leaves), extracted
+// whole by the real Extract; reports where the root directory of the OUTPUT ends.
+func runFinrootExtract(seed uint64, n int) string {
+	es := finrootEntries(seed, n)
+	buf := make([]byte, 128)
+	for i := range buf {
+		buf[i] = byte(i)
+	}
+	var data []byte
+	for _, e := range es {
+		data = append(data, buf[:e.Length]...)
+	}
+	ts := tileSet{entries: es, data: data}
+	h := baseHeader()
+	h.Clustered, h.TileType = true, pmtiles.Png
+	z0, _, _ := pmtiles.IDToZxy(es[0].TileID)
+	z1, _, _ := pmtiles.IDToZxy(es[len(es)-1].TileID)
+	h.MinZoom, h.MaxZoom, h.CenterZoom = z0, z1, z0
+	root := buildTree(core.NewRng(seed), es, 1, 1500, false)
+	ba := assembleArchive(root, ts, pmtiles.Gzip, h, []byte("{}"))
+	src := scratchFile(".pmtiles")
+	out := scratchFile(".out.pmtiles")
+	defer os.Remove(src)
+	defer os.Remove(out)
+	os.WriteFile(src, ba.bytes, 0o644)
+	if err := pmtiles.Extract(discardLogger, "", src, -1, -1, "", "", out, 2, 0.05, false); err != nil {
+		return "extract-failed " + strings.ReplaceAll(trunc2(err.Error(), 60), " ", "_")
+	}
+	fb, err := os.ReadFile(out)
+	if err != nil || len(fb) < 127 {
+		return "no-output"
+	}
+	fh, err := pmtiles.DeserializeHeader(fb[:127])
+	if err != nil {
+		return "header-unreadable"
+	}
+	if fh.TileEntriesCount != uint64(n) {
+		return fmt.Sprintf("entries=%d want %d", fh.TileEntriesCount, n)
+	}
+	if end := fh.RootOffset + fh.RootLength; fh.RootOffset < 127 || end > 16384 {
+		return fmt.Sprintf("exceeds end=%d", end)
+	}
+	return "within"
+}
+
+func trunc2(s string, n int) string {
+	if len(s) > n {
+		return s[:n]
+	}
+	return s
 }
 
 // runFinroot drives the real finalize() (as convert does) and reports where the root directory ends.
@@ -325,8 +398,8 @@ func (C05) Branch(line, goOut string) string {
 			sz = "n>=16384"
 		}
 		return "optcheck " + t[1] + " " + sz
-	case "finroot":
-		return "finroot " + strings.SplitN(goOut, " ", 2)[0]
+	case "finroot", "finrootx":
+		return t[0] + " " + strings.SplitN(goOut, " ", 2)[0]
 	}
 	return t[0]
 }
@@ -349,9 +422,9 @@ func (C05) Oracle(line, goOut string) string {
 			budget = 16384 - 127
 		}
 		return checkRootLeaves(es, root, leaves, n, ic, budget)
-	case "finroot":
+	case "finroot", "finrootx":
 		if goOut != "within" {
-			return "archive written by finalize(): header + root directory not within the first 16384 bytes: " + goOut
+			return "archive written by " + map[string]string{"finroot": "finalize()", "finrootx": "Extract"}[t[0]] + ": header + root directory not within the first 16384 bytes: " + goOut
 		}
 	}
 	return ""
